@@ -102,12 +102,21 @@ impl Ctx {
             xtis: if p[2].len() == 2 { vec![] } else { p[2][2..].split(',').map(|x| x.parse().unwrap()).collect() },
         }
     }
-    /// the extern-sheet table as the xlsb workbook reader resolves it
+    /// the extern-sheet table as the xlsb workbook reader resolves it (`Formula.resolveExtern`)
     fn xlsb_sheets(&self) -> Vec<String> {
         self.xtis
             .iter()
-            .map(|&it| if it < 0 { "#REF!".to_string() } else { self.sheets.get(it as usize).cloned().unwrap_or("#REF!".into()) })
+            .map(|&it| match it {
+                -2 => "#ThisWorkbook".to_string(),
+                -1 => "#InvalidWorkSheet".to_string(),
+                p if p >= 0 && (p as usize) < self.sheets.len() => self.sheets[p as usize].clone(),
+                _ => "#Unknown".to_string(),
+            })
             .collect()
+    }
+    /// some XTI entry does not designate a sheet of the workbook (outside the property's grammar)
+    fn has_dangling(&self) -> bool {
+        self.xtis.iter().any(|&i| i < 0 || i as usize >= self.sheets.len())
     }
     fn names_pairs(&self) -> Vec<(String, String)> {
         self.names.iter().map(|n| (n.clone(), String::new())).collect()
@@ -267,7 +276,9 @@ impl Expr {
 
     /// the property oracle: A1 text of the expression
     fn render(&self, ctx: &Ctx, out: &mut String) {
-        let sheet = |i: u16| -> String { ctx.sheets[ctx.xtis[i as usize] as usize].clone() };
+        let sheet = |i: u16| -> String {
+            ctx.xtis.get(i as usize).and_then(|&t| if t < 0 { None } else { ctx.sheets.get(t as usize) }).cloned().unwrap_or_else(|| "<no such sheet>".into())
+        };
         match self {
             Expr::Ref(_, a) => out.push_str(&a.a1()),
             Expr::Area(_, a, bb) => {
@@ -1085,10 +1096,21 @@ impl FileCase {
     }
 }
 
+fn rep_dangling(ctx: &mut Ctx, rng: &mut Rng) {
+    if rng.chance(1, 2) {
+        ctx.xtis.push(-3);
+    }
+}
+
 fn gen_file_case(rng: &mut Rng, wide: bool) -> FileCase {
-    let ctx = gen_ctx(rng);
+    let mut ctx = gen_ctx(rng);
     let o = GenOpts { wide };
     let mut cells = vec![];
+    if rng.chance(1, 8) {
+        // dangling XTI entries (deleted / external sheets): impl vs model only
+        ctx.xtis.push(*rng.pick(&[-1i16, -2, 9, 300]));
+        rep_dangling(&mut ctx, rng);
+    }
     for sh in 0..ctx.sheets.len() {
         // a window of at most 64 x 32 cells anywhere in the sheet (dense Range: bounding box stays small)
         let max_row: u32 = if wide { 1_048_575 } else { 65_535 };
@@ -1181,6 +1203,9 @@ fn run_file_case(fc: &FileCase, drv: &mut Driver, rep: &mut Report) {
     let input = fc.wire();
     rep.case(&input, !fc.cells.is_empty());
     rep.count("file_case");
+    if fc.ctx.has_dangling() {
+        rep.count("file_case_dangling_xti");
+    }
     rep.add("file_formula_cells", fc.cells.len() as u64);
     // encodings + model / oracle texts per cell
     struct C {
@@ -1245,7 +1270,8 @@ fn run_file_case(fc: &FileCase, drv: &mut Driver, rep: &mut Report) {
                     let exp: BTreeMap<(u32, u32), String> = cs.iter().filter(|c| c.sh == i).map(|c| ((c.r, c.c), c.oracle.clone())).collect();
                     let model: BTreeMap<(u32, u32), String> = cs.iter().filter(|c| c.sh == i).map(|c| ((c.r, c.c), strip(&c.mx))).collect();
                     let imp = guarded(|| impl_dump(&mut wb, name)).unwrap_or_else(|p| format!("panic:{p}"));
-                    let (e, m) = (expected_dump(&exp), expected_dump(&model));
+                    let m = expected_dump(&model);
+                    let e = if fc.ctx.has_dangling() { m.clone() } else { expected_dump(&exp) };
                     if imp != e {
                         rep.fail("impl_vs_spec", "file_xls_worksheet_formula", &input, &imp, &m, &e);
                     }
@@ -1291,7 +1317,8 @@ fn run_file_case(fc: &FileCase, drv: &mut Driver, rep: &mut Report) {
                     let exp: BTreeMap<(u32, u32), String> = cs.iter().filter(|c| c.sh == i).map(|c| ((c.r, c.c), c.oracle.clone())).collect();
                     let model: BTreeMap<(u32, u32), String> = cs.iter().filter(|c| c.sh == i).map(|c| ((c.r, c.c), strip(&c.mb))).collect();
                     let imp = guarded(|| impl_dump(&mut wb, name)).unwrap_or_else(|p| format!("panic:{p}"));
-                    let (e, m) = (expected_dump(&exp), expected_dump(&model));
+                    let m = expected_dump(&model);
+                    let e = if fc.ctx.has_dangling() { m.clone() } else { expected_dump(&exp) };
                     if imp != e {
                         rep.fail("impl_vs_spec", "file_xlsb_worksheet_formula", &input, &imp, &m, &e);
                     }
